@@ -93,8 +93,9 @@ Definition same_committed (fsx : option N) (live boot : cells) : bool :=
   forallb (fun k => (k =? K_CACHE) || staged_cell fsx k || (cell live k =? cell boot k))
           (cell_ids live boot).
 
+(** equal on everything that is ever "committed" (the cache is not) *)
 Definition same_cells (a b : cells) : bool :=
-  forallb (fun k => cell a k =? cell b k) (cell_ids a b).
+  forallb (fun k => (k =? K_CACHE) || (cell a k =? cell b k)) (cell_ids a b).
 
 (** violation codes *)
 Definition V_NO_BOOT : N := 1.          (* a restart from a prefix of the log does not come up *)
